@@ -349,23 +349,37 @@ class MultiValue(Object):
         except AttributeError:
             pass
 
-        result = self._rvalues = list(filter(None, (
-            v.resolve(ctx) for v in self.values)))
+        # visible to re-entrant lookups: ends cycles like self.a = self.b; self.b = self.a
+        result = self._rvalues = []
+        result.extend(filter(None, [v.resolve(ctx) for v in self.values]))
         return result
 
     def attr_list(self, ctx):
         # type: (EvalCtx) -> AttrList
         result: set[str] = set()
-        for v in self.get_rvalues(ctx):
-            result.update(v.attr_list(ctx))
+        if getattr(self, '_busy', False):
+            # self.a = self.b; self.b = self.a
+            return result
+        self._busy = True
+        try:
+            for v in self.get_rvalues(ctx):
+                result.update(v.attr_list(ctx))
+        finally:
+            self._busy = False
         return result
 
     def get_attr(self, ctx, name):
         # type: (EvalCtx, str) -> Object | Name | None
-        for v in self.get_rvalues(ctx):
-            result = v.get_attr(ctx, name)
-            if result is not None:
-                return result
+        if getattr(self, '_busy', False):
+            return None
+        self._busy = True
+        try:
+            for v in self.get_rvalues(ctx):
+                result = v.get_attr(ctx, name)
+                if result is not None:
+                    return result
+        finally:
+            self._busy = False
         return None
 
 
@@ -389,9 +403,10 @@ class ClassObject(Object, Callable):
     @cached_property
     def _attrs(self):
         # type: () -> Attributes
-        attrs = {}
+        # visible to re-entrant lookups: ends inheritance cycles
+        attrs = self.__dict__['_attrs'] = {}  # type: Attributes
         for b in reversed(self.bases):
-            attrs.update(b._attrs)
+            attrs.update(getattr(b, '_attrs', {}))
         attrs.update(self._cls_attrs)
         return attrs
 
@@ -437,9 +452,11 @@ class InstanceValue(Object):
     def _assigned(self):
         # type: () -> Attributes
         """Attributes assigned through self in the methods of the class and of its bases"""
-        attrs = {}  # type: Attributes
+        # visible to re-entrant lookups: ends inheritance cycles
+        attrs = self.__dict__['_assigned'] = {}  # type: Attributes
         for b in reversed(self.cls.bases):
-            o = b.call(self.ctx)
+            call = getattr(b, 'call', None)
+            o = call and call(self.ctx)
             if isinstance(o, InstanceValue):
                 attrs.update(o._assigned)
         attrs.update(self.cls.scope.top.assigns(self.ctx).get(self, {}))
